@@ -178,15 +178,20 @@ def stmt_terms_h(fn):
     return out
 
 
-def array_read(expr):
-    """(array descriptor, index text) if expr reads one element of a numpy array through PyArray_GETPTR1, directly or through
-    a file-local accessor helper whose body is such a read of (parameter 0)[parameter 1]"""
+def array_read(expr, alias=None):
+    """(array descriptor, index text) if expr reads one element of a numpy array through PyArray_GETPTR1 (or the same address written
+    out), directly or through a file-local accessor helper whose body is such a read of (parameter 0)[parameter 1]; alias: locals that
+    stand for a parameter / member (pointer_aliases)"""
+    return resolve_alias(_array_read(expr), alias)
+
+
+def _array_read(expr):
     e0 = strip(expr)
     if e0.get("kind") == "UnaryOperator" and e0.get("opcode") == "*":
         e1 = strip(e0["inner"][0])
     else:
         e1 = e0
-    if e1.get("kind") == "CallExpr" and callee_name(e1) in HELPERS and callee_name(e1) not in ("PyArray_BYTES", "PyArray_STRIDES"):
+    if e1.get("kind") == "CallExpr" and callee_name(e1) in HELPERS and callee_name(e1) not in ("PyArray_BYTES", "PyArray_DATA") + STRIDE_FNS:
         h = HELPERS[callee_name(e1)]
         hp = cfront.params_of(h)
         args = cfront.call_args(e1)
@@ -202,20 +207,85 @@ def array_read(expr):
     return _array_read_direct(expr)
 
 
+STRIDE_FNS = ("PyArray_STRIDES", "PyArray_STRIDE")
+
+
+def _literal_zero(e):
+    e = strip(e)
+    return e.get("kind") == "IntegerLiteral" and str(e.get("value")) == "0"
+
+
+def _stride0_of(e):
+    """array descriptor if e is the byte stride of dimension 0 of an array: PyArray_STRIDES(a)[0] (what PyArray_GETPTR1 expands to) or
+    PyArray_STRIDE(a, 0); 'other' for a stride of some other / an unknown dimension; None when e is no stride"""
+    e = strip(e)
+    k = e.get("kind")
+    if k == "ArraySubscriptExpr":
+        b = strip(e["inner"][0])
+        if b.get("kind") == "CallExpr" and callee_name(b) == "PyArray_STRIDES" and cfront.call_args(b):
+            return ref_desc(cfront.call_args(b)[0]) if _literal_zero(e["inner"][1]) else "other"
+    if k == "UnaryOperator" and e.get("opcode") == "*":
+        b = strip(e["inner"][0])
+        if b.get("kind") == "CallExpr" and callee_name(b) == "PyArray_STRIDES" and cfront.call_args(b):
+            return ref_desc(cfront.call_args(b)[0])          # *PyArray_STRIDES(a) is element 0
+    if k == "CallExpr" and callee_name(e) == "PyArray_STRIDE":
+        a = cfront.call_args(e)
+        if len(a) == 2:
+            return ref_desc(a[0]) if _literal_zero(a[1]) else "other"
+    if any(y.get("kind") == "CallExpr" and callee_name(y) in STRIDE_FNS for y in walk(e)):
+        return "other"
+    return None
+
+
 def _array_read_direct(expr):
-    arr = idx = None
+    """(array, index text) of `bytes(a) + index * stride0(a)` (either operand order, PyArray_BYTES or PyArray_DATA for the base,
+    PyArray_STRIDES(a)[0] or PyArray_STRIDE(a, 0) for the stride - the expansion of PyArray_GETPTR1(a, index) and its hand-written
+    spellings); None if base and stride belong to different arrays or the stride is not that of dimension 0"""
+    arr = idx = sarr = None
     for x in walk(expr):
-        if x.get("kind") == "CallExpr" and callee_name(x) == "PyArray_BYTES":
+        if x.get("kind") == "CallExpr" and callee_name(x) in ("PyArray_BYTES", "PyArray_DATA") and cfront.call_args(x):
             arr = ref_desc(cfront.call_args(x)[0])
         if x.get("kind") == "BinaryOperator" and x.get("opcode") == "*":
             a, b = x["inner"]
-            if any(callee_name(y) == "PyArray_STRIDES" for y in walk(b) if y.get("kind") == "CallExpr"):
-                idx = render(a)
-            elif any(callee_name(y) == "PyArray_STRIDES" for y in walk(a) if y.get("kind") == "CallExpr"):
-                idx = render(b)
-    if arr is None or idx is None:
+            for st_, other in ((b, a), (a, b)):
+                sa = _stride0_of(st_)
+                if sa is not None:
+                    if sa == "other":
+                        return None
+                    idx, sarr = render(other), sa
+                    break
+    if arr is None or idx is None or sarr != arr:
         return None
     return arr, idx
+
+
+def pointer_aliases(decl):
+    """local -> ('param'|'member', name) for locals of the function whose every definition is a (cast) copy of one and the same
+    parameter or member (`PyArrayObject *ra_arr = (PyArrayObject *) ra_array;` hoisted out of a loop)"""
+    seen = {}
+    for x in walk(cfront.body_of(decl)):
+        v = rhs = None
+        if x.get("kind") == "VarDecl" and x.get("name") and init_of(x) is not None:
+            v, rhs = x["name"], init_of(x)
+        elif x.get("kind") == "BinaryOperator" and x.get("opcode") == "=" and strip(x["inner"][0]).get("kind") == "DeclRefExpr":
+            v, rhs = render(strip(x["inner"][0])), x["inner"][1]
+        elif x.get("kind") in ("CompoundAssignOperator",) or (x.get("kind") == "UnaryOperator" and x.get("opcode") in ("++", "--")):
+            t = strip(x["inner"][0])
+            if t.get("kind") == "DeclRefExpr":
+                seen.setdefault(render(t), set()).add(None)
+            continue
+        if v is None:
+            continue
+        rd = ref_desc(rhs)
+        seen.setdefault(v, set()).add(rd if rd[0] in ("param", "member") else None)
+    return {v: next(iter(ds)) for v, ds in seen.items() if len(ds) == 1 and None not in ds}
+
+
+def resolve_alias(ar, alias):
+    """array_read result with a local alias of a parameter / member replaced by what it stands for"""
+    if ar is not None and ar[0][0] == "local" and ar[0][1] in (alias or {}):
+        return (alias[ar[0][1]], ar[1])
+    return ar
 
 
 def unstrided_reads(decl):
@@ -236,7 +306,7 @@ def unstrided_reads(decl):
             alias[v] = rd
     for v, rhs in defs:
         calls = [y for y in walk(rhs) if y.get("kind") == "CallExpr" and callee_name(y) in ("PyArray_DATA", "PyArray_BYTES")]
-        if calls and not any(y.get("kind") == "CallExpr" and callee_name(y) == "PyArray_STRIDES" for y in walk(rhs)):
+        if calls and not any(y.get("kind") == "CallExpr" and callee_name(y) in STRIDE_FNS for y in walk(rhs)):
             rd = ref_desc(cfront.call_args(calls[0])[0])
             if rd[0] == "local" and rd[1] in alias:
                 rd = alias[rd[1]]
@@ -289,6 +359,10 @@ class MatchFn:
         if len(self.params) != 5:
             raise AnalysisError("Matcher::match has %d parameters, expected (ra, dec, radius, maxmatch, filename)" % len(self.params))
         self.p_ra, self.p_dec, self.p_rad, self.p_max, self.p_file = self.params
+        self.alias = pointer_aliases(decl)
+
+    def aread(self, expr):
+        return array_read(expr, self.alias)
 
     def w(self, n):
         ln = n.c.get("line") if isinstance(n.c, dict) else None
@@ -320,7 +394,7 @@ class MatchFn:
                 var = render(cond["inner"][0])
                 bound = render(cond["inner"][1])
                 bd = self.defs_at(lp, bound)
-                if bd and all("PyArray_API[158]" in render(r) and ref_desc_in(r) == ("param", self.p_ra) for _, r in bd):
+                if bd and all("PyArray_API[158]" in render(r) and ref_desc_in(r, self.alias) == ("param", self.p_ra) for _, r in bd):
                     return lp, var
         raise AnalysisError("Matcher::match: loop over the input points (i < PyArray_SIZE(ra_array)) not found")
 
@@ -392,15 +466,17 @@ class MatchFn:
                 for a in args[:4]:
                     v = render(a)
                     vd = self.defs_at(dn, v)
-                    rd = [array_read(r) for _, r in vd]
+                    rd = [self.aread(r) for _, r in vd]
                     roles.append(rd[0] if len(rd) == 1 else None)
                 want_in = [(("param", self.p_ra), ivar), (("param", self.p_dec), ivar)]
-                ok_in = roles[:2] == want_in
+                # a coordinate whose definition is not recognised as an element read is not judged; a recognised read of another array or
+                # another element is a contradiction
+                ok_in = None if any(r is None for r in roles[:2]) else roles[:2] == want_in
                 chk.ob("R12.1", "match::distance-first-point-is-input-point-i", ok_in, self.w(dn),
                        "gcirc's first point is (ra_array[%s], dec_array[%s]) (found %s)" % (ivar, ivar, roles[:2]))
-                ok_mem = all(r is not None for r in roles[2:4]) and roles[2][0] == ("member", "ra") and roles[3][0] == ("member", "dec") and roles[2][1] == roles[3][1]
+                ok_mem = None if any(r is None for r in roles[2:4]) else (roles[2][0] == ("member", "ra") and roles[3][0] == ("member", "dec") and roles[2][1] == roles[3][1])
                 self.kvar = roles[2][1] if ok_mem else None
-                chk.ob("R12.1", "match::distance-second-point-is-member-k", bool(ok_mem), self.w(dn),
+                chk.ob("R12.1", "match::distance-second-point-is-member-k", ok_mem, self.w(dn),
                        "gcirc's second point is (this->ra[k], this->dec[k]) with one index k (found %s)" % (roles[2:4],))
                 deg = strip(args[4]) if len(args) > 4 else {}
                 chk.ob("R12.1", "match::distance-in-degrees", deg.get("kind") == "CXXBoolLiteralExpr" and deg.get("value") is True, self.w(dn),
@@ -411,7 +487,7 @@ class MatchFn:
             kinds = []
             self.rad_def_nodes = []
             for dn, rhs in rdefs:
-                ar = array_read(rhs)
+                ar = self.aread(rhs)
                 if ar is None:
                     kinds.append(("init", render(rhs)))
                     continue
@@ -447,7 +523,12 @@ class MatchFn:
                         if l.get("kind") == "MemberExpr" and render(l["inner"][0]) == pi:
                             fields[l.get("name")] = render(c["inner"][1])
             want = {"i1": ivar, "i2": getattr(self, "kvar", None), "d12": self.dvar}
-            chk.ob("R12.1", "match::record-is-(i,k,dis)", fields == want, self.w(n),
+            if want["i2"] is None:
+                # the member index was not identified above (that instance carries the verdict): only the other two items are compared
+                ok_rec = None if {k_: v_ for k_, v_ in fields.items() if k_ != "i2"} == {"i1": ivar, "d12": self.dvar} and "i2" in fields else False
+            else:
+                ok_rec = fields == want
+            chk.ob("R12.1", "match::record-is-(i,k,dis)", ok_rec, self.w(n),
                    "the record holds (input index, member index, separation) = %s (found %s)" % (want, fields))
 
 
@@ -470,12 +551,13 @@ class MatchFn:
                 if x.get("kind") == "CallExpr" and callee_name(x) == "gcirc":
                     out.add("dist")
                     continue
-                if x.get("kind") == "CallExpr" and callee_name(x) == "PyArray_BYTES":
-                    k = src.get(ref_desc(cfront.call_args(x)[0]))
+                if x.get("kind") == "CallExpr" and callee_name(x) in ("PyArray_BYTES", "PyArray_DATA") and cfront.call_args(x):
+                    rd_ = ref_desc(cfront.call_args(x)[0])
+                    k = src.get(self.alias.get(rd_[1], rd_) if rd_[0] == "local" else rd_)
                     if k:
                         out.add(k)
                 if x.get("kind") == "CallExpr" and callee_name(x) in HELPERS:
-                    ar = array_read(x)
+                    ar = self.aread(x)
                     if ar is not None and src.get(ar[0]):
                         out.add(src[ar[0]])
                 if x.get("kind") == "DeclRefExpr":
@@ -526,7 +608,7 @@ class MatchFn:
                 if sd.get("kind") != "DeclRefExpr":
                     return False
                 dd = self.defs_at(n, render(sd))
-                rd = [array_read(r) for _, r in dd]
+                rd = [self.aread(r) for _, r in dd]
                 if len(rd) != 1 or rd[0] is None:
                     return False
                 roles.add(rd[0][0])
@@ -974,7 +1056,7 @@ def per_point_values_rule(chk, rule, fname, f, loop_ivar, inputs):
     is that of point i: inside the loop over the first-set points such a variable is not used before its assignment of the same
     iteration (see stale_values)"""
     lp, ivar = loop_ivar
-    res = stale_values(f.cfg, f.view, lp, ivar, lambda a: a in inputs)
+    res = stale_values(f.cfg, f.view, lp, ivar, lambda a: a in inputs, getattr(f, "alias", None))
     if not res:
         chk.ob(rule, "%s::per-point-values-are-current" % fname, True, f.where, "no variable that outlives an iteration is assigned from a per-point input inside the loop over the points")
         return
@@ -992,10 +1074,11 @@ def array_read_ptr(expr):
     return array_read(expr)
 
 
-def ref_desc_in(expr):
+def ref_desc_in(expr, alias=None):
     for x in walk(expr):
         if x.get("kind") == "CallExpr" and callee_name(x) in ("PyArray_DIMS", "PyArray_NDIM", "PyArray_BYTES"):
-            return ref_desc(cfront.call_args(x)[0])
+            rd = ref_desc(cfront.call_args(x)[0])
+            return (alias or {}).get(rd[1], rd) if rd[0] == "local" else rd
     return None
 
 
@@ -1018,7 +1101,7 @@ def loop_body(cfg, view, lp):
     return [m for m in cfg.nodes if m.id != lp.id and any(b.id == lp.id and lab == "T" for b, lab in view.controlling_branches(m))]
 
 
-def stale_values(cfg, view, lp, ivar, is_input_array):
+def stale_values(cfg, view, lp, ivar, is_input_array, alias=None):
     """Per-iteration values that are used before they are brought up to date.  A variable that lives across the iterations of the
     loop `lp` (declared outside it) and is assigned inside it from element `ivar` of an input array - or from another such variable -
     holds, at the start of iteration i, the value of iteration i-1.  Every use of it inside the loop must therefore come after the
@@ -1050,7 +1133,7 @@ def stale_values(cfg, view, lp, ivar, is_input_array):
             if v in per:
                 continue
             for m, rhs in ds:
-                ar = array_read(rhs)
+                ar = array_read(rhs, alias)
                 names = {x.get("referencedDecl", {}).get("name") for x in walk(rhs) if x.get("kind") == "DeclRefExpr"}
                 if (ar is not None and ar[1] == ivar and is_input_array(ar[0])) or (names & set(per)):
                     per[v] = [d for d, _ in ds]
@@ -1131,9 +1214,10 @@ def hmap_rule(chk, fs):
         return
     reads = {}
     look = None
+    alias_ = pointer_aliases(fn)
     for n in g.nodes:
         for v, rhs in node_defs(n):
-            ar = array_read(rhs)
+            ar = array_read(rhs, alias_)
             if ar:
                 reads[v] = ar
             if "lookupID(" in render(rhs):
@@ -2025,6 +2109,113 @@ def _size_checks(fi):
     return out
 
 
+def test_terms(fi):
+    """{branch node id: bool_term of its test} with every local name of the test replaced by the expression it was assigned: a name that is
+    not a parameter, whose one reaching definition at the test is a plain `name = <expr>`, and whose own operands are the same values at the
+    test as at the assignment (same reaching definitions).  A named condition (`ok = a == 1 or a == n; if not ok: raise`), a named size
+    (`n = ra.size`) and the test written in place all read the same."""
+    import copy
+    from vcheck.cfg import func_params
+    cfg = rules.cfg_of(fi)
+    view = cfg.view()
+    RIN, _ = view.reaching_defs()
+    params = set(func_params(fi.node))
+
+    def value_at(name, at, depth):
+        ds = RIN.get(at.id, {}).get(name, set())
+        if name in params or len(ds) != 1 or depth <= 0:
+            return None
+        dn = cfg.node(next(iter(ds)))
+        a = getattr(dn, "ast", None)
+        if not (isinstance(a, ast.Assign) and len(a.targets) == 1 and isinstance(a.targets[0], ast.Name) and a.targets[0].id == name):
+            return None
+        used = {x.id for x in ast.walk(a.value) if isinstance(x, ast.Name) and isinstance(x.ctx, ast.Load)}
+        if name in used or any(RIN.get(dn.id, {}).get(u, set()) != RIN.get(at.id, {}).get(u, set()) for u in used):
+            return None
+        if any(isinstance(x, (ast.Lambda, ast.NamedExpr, ast.Yield, ast.Await)) for x in ast.walk(a.value)):
+            return None
+        return subst(copy.deepcopy(a.value), dn, depth - 1)
+
+    def subst(e, at, depth):
+        class T(ast.NodeTransformer):
+            def visit_Name(self, n):
+                if isinstance(n.ctx, ast.Load):
+                    v = value_at(n.id, at, depth)
+                    if v is not None:
+                        return v
+                return n
+
+            def visit_Lambda(self, n):
+                return n
+        return ast.fix_missing_locations(T().visit(e))
+    out = {}
+    for b in cfg.nodes:
+        t = getattr(getattr(b, "ast", None), "test", None)
+        if b.kind == "branch" and isinstance(t, ast.AST):
+            out[b.id] = rules.bool_term(subst(copy.deepcopy(t), b, 6))
+    return out
+
+
+def raise_condition_x(fi):
+    """when the function raises: the disjunction, over its raise statements, of the conjunction of the tests that control them (as
+    rules.raise_condition), each test read through test_terms"""
+    cfg = rules.cfg_of(fi)
+    view = cfg.view()
+    tt = test_terms(fi)
+    out = []
+    for n in rules.raise_nodes(cfg):
+        conj = []
+        for b, lab in view.controlling_branches(n):
+            if b.kind == "branch" and b.id in tt:
+                conj.append(tt[b.id] if lab == "T" else sp.Not(tt[b.id]))
+        out.append(sp.And(*conj) if conj else sp.true)
+    return sp.Or(*out) if out else sp.false
+
+
+def _atom_is_read(sym, params):
+    """an atom of bool_term whose operands are made of the function's parameters, constants, attributes and len() only (a size comparison
+    of the arguments that the rule can reason about), as opposed to one that hides a call or a local that was not resolved"""
+    txt = sym.name
+    if "[" not in txt or not txt.endswith("]"):
+        return False
+    for part in txt[txt.index("[") + 1:-1].split("|"):
+        try:
+            e = ast.parse(part, mode="eval").body
+        except SyntaxError:
+            return False
+        for x in ast.walk(e):
+            if isinstance(x, ast.Name) and x.id not in params and x.id != "len":
+                return False
+            if isinstance(x, ast.Call) and not (isinstance(x.func, ast.Name) and x.func.id == "len"):
+                return False
+            if isinstance(x, (ast.Lambda, ast.Subscript, ast.IfExp, ast.ListComp, ast.GeneratorExp, ast.SetComp, ast.DictComp)):
+                return False
+    return True
+
+
+def size_check_verdict(fi, want_src):
+    """(ok, raise condition): True when the stated condition implies that the function raises; False when it does not although every
+    condition that controls a raise is a comparison of the arguments that was read; None when the raise depends on conditions that were
+    not read (a call, an unresolved local) and some truth value of those would make the implication hold"""
+    import itertools
+    from vcheck.cfg import func_params
+    want = rules.bool_term(ast.parse(want_src, mode="eval").body)
+    rc = raise_condition_x(fi)
+    if rules.bool_implies(want, rc):
+        return True, rc
+    params = set(func_params(fi.node))
+    known = want.atoms(sp.Symbol)
+    opaque = sorted((a for a in rc.atoms(sp.Symbol) if a not in known and not _atom_is_read(a, params)), key=str)
+    if not opaque:
+        return False, rc
+    if len(opaque) > 6:
+        return None, rc
+    for vals in itertools.product((True, False), repeat=len(opaque)):
+        if rules.bool_implies(want, rc.subs(dict(zip(opaque, vals)))):
+            return None, rc
+    return False, rc
+
+
 def python_rules(chk, repo, m):
     hm = repo.func(H + "HTM.match")
     mi = repo.func(H + "Matcher.__init__")
@@ -2058,19 +2249,14 @@ def python_rules(chk, repo, m):
                % (pyname, "" if ("param", cpar) not in bare else " -- they are read through the bare data pointer, which is right only for a contiguous array: the python wrapper "
                   "has to hand over a new array on every path (it may hand over: %s)" % sorted(at[pyname][0])))
 
-    def _size(a):
-        return ast.parse("%s.size" % a, mode="eval").body
-
-    def _want(src):
-        return rules.bool_term(ast.parse(src, mode="eval").body)
-    rc = rules.raise_condition(mi)
-    chk.ob("R12.7", "Matcher.__init__::ra-dec-size-check", rules.bool_implies(_want("ra.size != dec.size"), rc), mi.where(),
+    ok, rc = size_check_verdict(mi, "ra.size != dec.size")
+    chk.ob("R12.7", "Matcher.__init__::ra-dec-size-check", ok, mi.where(),
            "unequal coordinate arrays are rejected (raises when: %s)" % rc)
-    rc = rules.raise_condition(mm)
-    chk.ob("R12.7", "Matcher.match::size-checks", rules.bool_implies(_want("ra.size != dec.size or (radius.size != 1 and radius.size != ra.size)"), rc), mm.where(),
+    ok, rc = size_check_verdict(mm, "ra.size != dec.size or (radius.size != 1 and radius.size != ra.size)")
+    chk.ob("R12.7", "Matcher.match::size-checks", ok, mm.where(),
            "unequal coordinate arrays and a radius array of the wrong length are rejected (the C++ loop indexes the radius with the point index); raises when: %s" % rc)
-    rc = rules.raise_condition(hm)
-    chk.ob("R12.7", "HTM.match::size-checks", rules.bool_implies(_want("ra1.size != dec1.size or (radius.size != 1 and radius.size != ra1.size)"), rc), hm.where(),
+    ok, rc = size_check_verdict(hm, "ra1.size != dec1.size or (radius.size != 1 and radius.size != ra1.size)")
+    chk.ob("R12.7", "HTM.match::size-checks", ok, hm.where(),
            "first-set sizes and the radius length are checked before delegation (raises when: %s)" % rc)
     # super().__init__(depth, ra, dec) and super().match(ra, dec, radius, maxmatch, filename) in C++ order
     sup = [c for c in walk_no_nested(mi.node) if isinstance(c, ast.Call) and call_name(c) == "__init__"]
